@@ -82,11 +82,15 @@ impl Seek for SimSource {
     }
 }
 
-pub const CORPUS_DIR: &str = "/repo/tests/test_files";
+pub const CORPUS_DIR_DEFAULT: &str = "/repo/tests/test_files";
+
+pub fn corpus_dir() -> String {
+    std::env::var("USIM_CORPUS").unwrap_or_else(|_| CORPUS_DIR_DEFAULT.to_string())
+}
 pub const UNREADABLE: &[&str] = &["aaa_large_string.xlsx", "wps_comment.xlsx"];
 
 pub fn corpus_files() -> Vec<String> {
-    let mut v: Vec<String> = std::fs::read_dir(CORPUS_DIR)
+    let mut v: Vec<String> = std::fs::read_dir(corpus_dir())
         .map(|d| d.filter_map(|e| e.ok()).map(|e| e.file_name().to_string_lossy().to_string()).collect())
         .unwrap_or_default();
     v.retain(|n| (n.ends_with(".xlsx") || n.ends_with(".xlsm")) && !UNREADABLE.contains(&n.as_str()));
@@ -98,7 +102,7 @@ pub fn source_bytes(case: &Value) -> Result<Vec<u8>, String> {
     match case["source"]["kind"].as_str().unwrap_or("generated") {
         "corpus" => {
             let f = case["source"]["file"].as_str().unwrap_or("");
-            std::fs::read(format!("{}/{}", CORPUS_DIR, f)).map_err(|e| format!("corpus file {}: {}", f, e))
+            std::fs::read(format!("{}/{}", corpus_dir(), f)).map_err(|e| format!("corpus file {}: {}", f, e))
         }
         _ => {
             let ops: Vec<Op> = serde_json::from_value(case["source"]["ops"].clone()).unwrap_or_default();
@@ -617,7 +621,7 @@ pub fn gen_source(sw: &mut Rng, wl: &mut Rng, tier: &str) -> Value {
         // corpus: small files in the quick tier
         for _ in 0..20 {
             let f = &files[sw.usize(files.len())];
-            let len = std::fs::metadata(format!("{}/{}", CORPUS_DIR, f)).map(|m| m.len()).unwrap_or(0);
+            let len = std::fs::metadata(format!("{}/{}", corpus_dir(), f)).map(|m| m.len()).unwrap_or(0);
             if tier == "thorough" || len <= 60_000 {
                 return json!({"kind": "corpus", "file": f});
             }
